@@ -281,6 +281,12 @@ def d2(db, rep):
     from rules_common import check_snprintf_lengths
     nfmt = check_snprintf_lengths(db, [f for f in db.all_functions() if f.relfile.startswith("orc/") or f.relfile.startswith("tools/")], rep, "D1c-FMT-LENGTH")
     rep.extra["snprintf_result_uses_judged"] = nfmt
+    # D1e: element K of the instruction array is read only where n_insns > K is known (entries beyond the count are zero)
+    import prefixread
+    ne = prefixread.check(db, [g for g in db.all_functions() if g.relfile.startswith("orc/")], rep, "D1e-PREFIX-READ", where)
+    rep.extra["constant_index_reads_of_insns"] = ne
+    if ne < 3:
+        raise AnalysisBroken("only %d constant-index reads of an insns[] array found" % ne)
     # D1d: slots carved out of a constant-size heap block lie inside it (instances on the unchanged tree: none; control: fixtures/carve.c)
     from rules_common import check_block_offsets
     rep.extra["block_offset_sites_judged"] = check_block_offsets(db, [g for g in db.all_functions() if g.relfile.startswith("orc/") or g.relfile.startswith("tools/")], rep, "D1d-BLOCK-OFFSET")
